@@ -12,7 +12,43 @@ package adaptation
 // Ownership ledger (result.go: owners, resultOwners)
 // ---------------------------------------------------------------------------
 
+//@ pure sepm(a map[string]string, b map[string]string) = a == nil || b == nil || a != b
+// the eight ownership maps of one container are distinct map objects
+//@ pure wfOwners(o *owners) = sepm(o.annotations, o.mounts)
+//@     && sepm(o.annotations, o.devices)
+//@     && sepm(o.annotations, o.cdiDevices)
+//@     && sepm(o.annotations, o.env)
+//@     && sepm(o.annotations, o.hugepageLimits)
+//@     && sepm(o.annotations, o.unified)
+//@     && sepm(o.annotations, o.rlimits)
+//@     && sepm(o.mounts, o.devices)
+//@     && sepm(o.mounts, o.cdiDevices)
+//@     && sepm(o.mounts, o.env)
+//@     && sepm(o.mounts, o.hugepageLimits)
+//@     && sepm(o.mounts, o.unified)
+//@     && sepm(o.mounts, o.rlimits)
+//@     && sepm(o.devices, o.cdiDevices)
+//@     && sepm(o.devices, o.env)
+//@     && sepm(o.devices, o.hugepageLimits)
+//@     && sepm(o.devices, o.unified)
+//@     && sepm(o.devices, o.rlimits)
+//@     && sepm(o.cdiDevices, o.env)
+//@     && sepm(o.cdiDevices, o.hugepageLimits)
+//@     && sepm(o.cdiDevices, o.unified)
+//@     && sepm(o.cdiDevices, o.rlimits)
+//@     && sepm(o.env, o.hugepageLimits)
+//@     && sepm(o.env, o.unified)
+//@     && sepm(o.env, o.rlimits)
+//@     && sepm(o.hugepageLimits, o.unified)
+//@     && sepm(o.hugepageLimits, o.rlimits)
+//@     && sepm(o.unified, o.rlimits)
+// none of the ownership maps of o is the map m
+//@ pure avoids(o *owners, m map[string]string) = sepm(o.annotations, m) && sepm(o.mounts, m) && sepm(o.devices, m) && sepm(o.cdiDevices, m) && sepm(o.env, m) && sepm(o.hugepageLimits, m) && sepm(o.unified, m) && sepm(o.rlimits, m)
 //@ pure wfRO(ro resultOwners) = ro != nil && forall j string :: has(ro, j) ==> allocated(ro[j])
+
+// Frames are given per map entry (mapkey(m, k): only the entry for key k of map m may
+// change), so "every other key is unchanged" follows from the frame and needs no
+// quantified postcondition.
 
 //@ template claimScalar(M, F)
 //@ func owners.$M
@@ -27,22 +63,19 @@ package adaptation
 //@ func owners.$M
 //@   props C01 C02 C05
 //@   requires o != nil
-//@   modifies o.$F, map(o.$F)
-//@   ensures [taken] old(has(o.$F, $K)) ==> result != nil && o.$F == old(o.$F)
-//@        && forall k string :: has(o.$F, k) == old(has(o.$F, k)) && o.$F[k] == old(o.$F[k])
+//@   modifies o.$F, mapkey(o.$F, $K)
+//@   ensures [taken] old(has(o.$F, $K)) ==> result != nil && o.$F == old(o.$F) && has(o.$F, $K) && o.$F[$K] == old(o.$F[$K])
 //@   ensures [free]  !old(has(o.$F, $K)) ==> result == nil && o.$F != nil && has(o.$F, $K) && o.$F[$K] == plugin
-//@        && forall k string :: k != $K ==> has(o.$F, k) == old(has(o.$F, k)) && o.$F[k] == old(o.$F[k])
 //@   ensures [stable] old(o.$F) != nil ==> o.$F == old(o.$F)
-//@   ensures [freshmap] old(o.$F) == nil ==> fresh(o.$F) || o.$F == nil
+//@   ensures [freshmap] old(o.$F) == nil ==> (o.$F == nil || fresh(o.$F)) && forall k string :: k != $K ==> !has(o.$F, k)
 //@ end
 
 //@ template clearKeyed(M, F, K)
 //@ func owners.$M
 //@   props C01 C02
 //@   requires o != nil
-//@   modifies map(o.$F)
+//@   modifies mapkey(o.$F, $K)
 //@   ensures [cleared] !has(o.$F, $K)
-//@   ensures [others]  forall k string :: k != $K ==> has(o.$F, k) == old(has(o.$F, k)) && o.$F[k] == old(o.$F[k])
 //@ end
 
 //@ func owners.clearArgs
@@ -58,9 +91,8 @@ package adaptation
 //@ func resultOwners.ownersFor
 //@   props C01 C02 C05
 //@   requires wfRO(ro)
-//@   modifies map(ro)
-//@   ensures wfRO(ro) && has(ro, id) && result == ro[id] && result != nil
-//@   ensures forall j string :: j != id ==> has(ro, j) == old(has(ro, j)) && ro[j] == old(ro[j])
+//@   modifies mapkey(ro, id)
+//@   ensures has(ro, id) && result == ro[id] && allocated(result)
 //@   ensures old(has(ro, id)) ==> result == old(ro[id])
 //@   ensures !old(has(ro, id)) ==> fresh(result) && zeroed(result)
 
@@ -69,15 +101,14 @@ package adaptation
 
 //@ template wrapCommon(M)
 //@   requires wfRO(ro)
-//@   ensures [wf]     wfRO(ro) && has(ro, id)
-//@   ensures [others] forall j string :: j != id ==> has(ro, j) == old(has(ro, j)) && ro[j] == old(ro[j])
+//@   ensures [has]    has(ro, id) && allocated(ro[id])
 //@   ensures [same]   old(has(ro, id)) ==> ro[id] == old(ro[id])
 //@ end
 
 //@ template wrapScalar(M, F)
 //@ func resultOwners.$M
 //@   props C01 C02 C05
-//@   modifies map(ro), ro[id].$F
+//@   modifies mapkey(ro, id), ro[id].$F
 //@ apply wrapCommon($M)
 //@   ensures [new]   !old(has(ro, id)) ==> fresh(ro[id]) && zeroedexcept(ro[id], "$F")
 //@   ensures [taken] old(ro[id].$F) != "" ==> result != nil && ro[id].$F == old(ro[id].$F)
@@ -87,30 +118,27 @@ package adaptation
 //@ template wrapKeyed(M, F, K)
 //@ func resultOwners.$M
 //@   props C01 C02 C05
-//@   modifies map(ro), ro[id].$F, map(ro[id].$F)
+//@   modifies mapkey(ro, id), ro[id].$F, mapkey(ro[id].$F, $K)
 //@ apply wrapCommon($M)
 //@   ensures [new]   !old(has(ro, id)) ==> fresh(ro[id]) && zeroedexcept(ro[id], "$F")
-//@   ensures [taken] old(has(ro[id].$F, $K)) ==> result != nil && ro[id].$F == old(ro[id].$F)
-//@        && forall k string :: has(ro[id].$F, k) == old(has(ro[id].$F, k)) && ro[id].$F[k] == old(ro[id].$F[k])
+//@   ensures [taken] old(has(ro[id].$F, $K)) ==> result != nil && ro[id].$F == old(ro[id].$F) && has(ro[id].$F, $K) && ro[id].$F[$K] == old(ro[id].$F[$K])
 //@   ensures [free]  !old(has(ro[id].$F, $K)) ==> result == nil && ro[id].$F != nil && has(ro[id].$F, $K) && ro[id].$F[$K] == plugin
-//@        && forall k string :: k != $K ==> has(ro[id].$F, k) == old(has(ro[id].$F, k)) && ro[id].$F[k] == old(ro[id].$F[k])
 //@   ensures [stable] old(ro[id].$F) != nil ==> ro[id].$F == old(ro[id].$F)
-//@   ensures [freshmap] old(ro[id].$F) == nil ==> fresh(ro[id].$F) || ro[id].$F == nil
+//@   ensures [freshmap] old(ro[id].$F) == nil ==> (ro[id].$F == nil || fresh(ro[id].$F)) && forall k string :: k != $K ==> !has(ro[id].$F, k)
 //@ end
 
 //@ template wrapClear(M, F, K)
 //@ func resultOwners.$M
 //@   props C01 C02
-//@   modifies map(ro), map(ro[id].$F)
+//@   modifies mapkey(ro, id), mapkey(ro[id].$F, $K)
 //@ apply wrapCommon($M)
 //@   ensures [new]     !old(has(ro, id)) ==> fresh(ro[id]) && zeroed(ro[id])
 //@   ensures [cleared] !has(ro[id].$F, $K) && ro[id].$F == old(ro[id].$F)
-//@   ensures [keys]    forall k string :: k != $K ==> has(ro[id].$F, k) == old(has(ro[id].$F, k)) && ro[id].$F[k] == old(ro[id].$F[k])
 //@ end
 
 //@ func resultOwners.clearArgs
 //@   props C01 C02
-//@   modifies map(ro), ro[id].args
+//@   modifies mapkey(ro, id), ro[id].args
 //@ apply wrapCommon(clearArgs)
 //@   ensures [new]     !old(has(ro, id)) ==> fresh(ro[id]) && zeroed(ro[id])
 //@   ensures [cleared] ro[id].args == ""
@@ -212,17 +240,20 @@ package adaptation
 //@     && view(r).Linux.Resources.Cpu != reply(r).Linux.Resources.Cpu
 //@     && view(r).Linux.Resources.Unified != reply(r).Linux.Resources.Unified
 //@     && view(r).Annotations != reply(r).Annotations && view(r).Hooks != reply(r).Hooks
+//@     && view(r).Annotations != view(r).Linux.Resources.Unified && view(r).Annotations != reply(r).Linux.Resources.Unified
+//@     && reply(r).Annotations != view(r).Linux.Resources.Unified && reply(r).Annotations != reply(r).Linux.Resources.Unified
+//@     && wfOwners(ledger(r)) && avoids(ledger(r), view(r).Annotations) && avoids(ledger(r), reply(r).Annotations)
+//@     && avoids(ledger(r), view(r).Linux.Resources.Unified) && avoids(ledger(r), reply(r).Linux.Resources.Unified)
 
 // The parts of the ledger that a creation-path function does not name stay as they were.
-//@ pure ledgerKept(r *result) = wfRO(r.owners) && has(r.owners, cid(r))
-//@     && (forall j string :: j != cid(r) ==> has(r.owners, j) == old(has(r.owners, j)) && r.owners[j] == old(r.owners[j]))
-//@     && (old(has(r.owners, cid(r))) ==> ledger(r) == old(ledger(r)))
-//@ pure ledgerSame(r *result) = forall j string :: has(r.owners, j) == old(has(r.owners, j)) && r.owners[j] == old(r.owners[j])
+// (entries of other containers are untouched by the frame: modifies mapkey(r.owners, cid(r)))
+//@ pure ledgerKept(r *result) = has(r.owners, cid(r)) && allocated(ledger(r)) && (old(has(r.owners, cid(r))) ==> ledger(r) == old(ledger(r)))
+//@ pure ledgerSame(r *result) = has(r.owners, cid(r)) == old(has(r.owners, cid(r))) && ledger(r) == old(ledger(r))
 
 //@ func result.adjustCgroupsPath
 //@   props C01 C02 C03 C04
 //@   requires wfCreate(r)
-//@   modifies map(r.owners), ledger(r).cgroupsPath, view(r).Linux.CgroupsPath, reply(r).Linux.CgroupsPath
+//@   modifies mapkey(r.owners, cid(r)), ledger(r).cgroupsPath, view(r).Linux.CgroupsPath, reply(r).Linux.CgroupsPath
 //@   ensures [noop]     path == "" ==> result == nil && ledger(r).cgroupsPath == old(ledger(r).cgroupsPath)
 //@                      && view(r).Linux.CgroupsPath == old(view(r).Linux.CgroupsPath) && reply(r).Linux.CgroupsPath == old(reply(r).Linux.CgroupsPath)
 //@                      && ledgerSame(r)
@@ -235,7 +266,7 @@ package adaptation
 //@ func result.adjustOomScoreAdj
 //@   props C01 C02 C03 C04
 //@   requires wfCreate(r)
-//@   modifies map(r.owners), ledger(r).oomScoreAdj, view(r).Linux.OomScoreAdj, reply(r).Linux.OomScoreAdj
+//@   modifies mapkey(r.owners, cid(r)), ledger(r).oomScoreAdj, view(r).Linux.OomScoreAdj, reply(r).Linux.OomScoreAdj
 //@   ensures [noop]     OomScoreAdj == nil ==> result == nil && ledger(r).oomScoreAdj == old(ledger(r).oomScoreAdj)
 //@                      && view(r).Linux.OomScoreAdj == old(view(r).Linux.OomScoreAdj) && reply(r).Linux.OomScoreAdj == old(reply(r).Linux.OomScoreAdj)
 //@                      && ledgerSame(r)
@@ -253,7 +284,7 @@ package adaptation
 //@ func result.adjustArgs
 //@   props C01 C02 C03 C04
 //@   requires wfCreate(r)
-//@   modifies map(r.owners), ledger(r).args, view(r).Args, reply(r).Args
+//@   modifies mapkey(r.owners, cid(r)), ledger(r).args, view(r).Args, reply(r).Args
 //@   ensures [noop]     len(args) == 0 ==> result == nil && ledger(r).args == old(ledger(r).args)
 //@                      && view(r).Args == old(view(r).Args) && reply(r).Args == old(reply(r).Args) && ledgerSame(r)
 //@   ensures [conflict] len(args) > 0 && args[0] != "" && old(ledger(r).args) != "" ==> result != nil && ledger(r).args == old(ledger(r).args)
@@ -280,7 +311,7 @@ package adaptation
 //@ func result.adjustCDIDevices
 //@   props C01 C02 C03
 //@   requires wfCreate(r) && noNilCDI(devices) && sep(base(devices), base(reply(r).CDIDevices))
-//@   modifies map(r.owners), ledger(r).cdiDevices, map(ledger(r).cdiDevices), reply(r).CDIDevices, elems(reply(r).CDIDevices)
+//@   modifies mapkey(r.owners, cid(r)), ledger(r).cdiDevices, map(ledger(r).cdiDevices), reply(r).CDIDevices, elems(reply(r).CDIDevices)
 //@   ensures [noop]    len(devices) == 0 ==> result == nil && reply(r).CDIDevices == old(reply(r).CDIDevices) && ledgerSame(r) && ledger(r).cdiDevices == old(ledger(r).cdiDevices)
 //@   ensures [c01]     forall i int :: 0 <= i && i < len(devices) && old(has(ledger(r).cdiDevices, devices[i].Name)) ==> result != nil
 //@   ensures [c02]     old(cdiDisjoint(r, devices)) ==> result == nil
@@ -309,7 +340,7 @@ package adaptation
 //@   props C01 C02 C03 C04
 //@   requires wfCreate(r) && noNilRlimits(rlimits)
 //@   requires sep(base(rlimits), base(reply(r).Rlimits)) && sep(base(rlimits), base(view(r).Rlimits)) && sep(base(view(r).Rlimits), base(reply(r).Rlimits))
-//@   modifies map(r.owners), ledger(r).rlimits, map(ledger(r).rlimits), reply(r).Rlimits, elems(reply(r).Rlimits), view(r).Rlimits, elems(view(r).Rlimits)
+//@   modifies mapkey(r.owners, cid(r)), ledger(r).rlimits, map(ledger(r).rlimits), reply(r).Rlimits, elems(reply(r).Rlimits), view(r).Rlimits, elems(view(r).Rlimits)
 //@   ensures [noop]    len(rlimits) == 0 ==> result == nil && reply(r).Rlimits == old(reply(r).Rlimits) && view(r).Rlimits == old(view(r).Rlimits)
 //@                     && ledgerSame(r) && ledger(r).rlimits == old(ledger(r).rlimits)
 //@   ensures [c01]     forall i int :: 0 <= i && i < len(rlimits) && old(has(ledger(r).rlimits, rlimits[i].Type)) ==> result != nil
@@ -510,3 +541,205 @@ package adaptation
 //@ apply hookList(view, CreateRuntime)
 //@ apply hookList(view, CreateContainer)
 //@ apply hookList(view, StartContainer)
+
+// ---- resources (generated by gen_resources.py) ----
+//@ pure vres(r *result) = r.request.create.Container.Linux.Resources
+//@ pure rres(r *result) = r.reply.adjust.Linux.Resources
+//@ pure noNilHP(s []*HugepageLimit) = forall i int :: 0 <= i && i < len(s) ==> allocated(s[i])
+//@ pure resDisjoint(r *result, res *LinuxResources) = ((res.Memory != nil && res.Memory.Limit != nil) ==> ledger(r).memLimit == "")
+//@     && ((res.Memory != nil && res.Memory.Reservation != nil) ==> ledger(r).memReservation == "")
+//@     && ((res.Memory != nil && res.Memory.Swap != nil) ==> ledger(r).memSwapLimit == "")
+//@     && ((res.Memory != nil && res.Memory.Kernel != nil) ==> ledger(r).memKernelLimit == "")
+//@     && ((res.Memory != nil && res.Memory.KernelTcp != nil) ==> ledger(r).memTCPLimit == "")
+//@     && ((res.Memory != nil && res.Memory.Swappiness != nil) ==> ledger(r).memSwappiness == "")
+//@     && ((res.Memory != nil && res.Memory.DisableOomKiller != nil) ==> ledger(r).memDisableOomKiller == "")
+//@     && ((res.Memory != nil && res.Memory.UseHierarchy != nil) ==> ledger(r).memUseHierarchy == "")
+//@     && ((res.Cpu != nil && res.Cpu.Shares != nil) ==> ledger(r).cpuShares == "")
+//@     && ((res.Cpu != nil && res.Cpu.Quota != nil) ==> ledger(r).cpuQuota == "")
+//@     && ((res.Cpu != nil && res.Cpu.Period != nil) ==> ledger(r).cpuPeriod == "")
+//@     && ((res.Cpu != nil && res.Cpu.RealtimeRuntime != nil) ==> ledger(r).cpuRealtimeRuntime == "")
+//@     && ((res.Cpu != nil && res.Cpu.RealtimePeriod != nil) ==> ledger(r).cpuRealtimePeriod == "")
+//@     && ((res.Cpu != nil && res.Cpu.Cpus != "") ==> ledger(r).cpusetCpus == "")
+//@     && ((res.Cpu != nil && res.Cpu.Mems != "") ==> ledger(r).cpusetMems == "")
+//@     && ((res.BlockioClass != nil) ==> ledger(r).blockioClass == "")
+//@     && ((res.RdtClass != nil) ==> ledger(r).rdtClass == "")
+//@     && ((res.Pids != nil) ==> ledger(r).pidsLimit == "")
+//@     && (forall i int :: 0 <= i && i < len(res.HugepageLimits) ==> !has(ledger(r).hugepageLimits, res.HugepageLimits[i].PageSize))
+//@     && (forall i int, j int :: 0 <= i && i < j && j < len(res.HugepageLimits) ==> res.HugepageLimits[i].PageSize != res.HugepageLimits[j].PageSize)
+//@     && (forall k string :: has(res.Unified, k) ==> !has(ledger(r).unified, k))
+
+//@ func result.adjustResources
+//@   props C01 C02 C03 C04
+//@   requires wfCreate(r) && (resources != nil ==> noNilHP(resources.HugepageLimits)
+//@     && sep(base(resources.HugepageLimits), base(rres(r).HugepageLimits)) && sep(base(resources.HugepageLimits), base(vres(r).HugepageLimits))
+//@     && resources.Unified != rres(r).Unified && resources.Unified != vres(r).Unified && resources != rres(r) && resources != vres(r)
+//@     && resources.Unified != view(r).Annotations && resources.Unified != reply(r).Annotations && avoids(ledger(r), resources.Unified)
+//@     && resources.Memory != rres(r).Memory && resources.Memory != vres(r).Memory && resources.Cpu != rres(r).Cpu && resources.Cpu != vres(r).Cpu)
+//@   requires sep(base(vres(r).HugepageLimits), base(rres(r).HugepageLimits))
+//@   modifies mapkey(r.owners, cid(r)), ledger(r).memLimit, ledger(r).memReservation, ledger(r).memSwapLimit, ledger(r).memKernelLimit, ledger(r).memTCPLimit, ledger(r).memSwappiness, ledger(r).memDisableOomKiller, ledger(r).memUseHierarchy, ledger(r).cpuShares, ledger(r).cpuQuota, ledger(r).cpuPeriod, ledger(r).cpuRealtimeRuntime, ledger(r).cpuRealtimePeriod, ledger(r).cpusetCpus, ledger(r).cpusetMems, ledger(r).blockioClass, ledger(r).rdtClass, ledger(r).pidsLimit, ledger(r).hugepageLimits, map(ledger(r).hugepageLimits), ledger(r).unified, map(ledger(r).unified), vres(r).Memory.Limit, vres(r).Memory.Reservation, vres(r).Memory.Swap, vres(r).Memory.Kernel, vres(r).Memory.KernelTcp, vres(r).Memory.Swappiness, vres(r).Memory.DisableOomKiller, vres(r).Memory.UseHierarchy, vres(r).Cpu.Shares, vres(r).Cpu.Quota, vres(r).Cpu.Period, vres(r).Cpu.RealtimeRuntime, vres(r).Cpu.RealtimePeriod, vres(r).Cpu.Cpus, vres(r).Cpu.Mems, vres(r).BlockioClass, vres(r).RdtClass, vres(r).Pids, vres(r).HugepageLimits, elems(vres(r).HugepageLimits), map(vres(r).Unified), rres(r).Memory.Limit, rres(r).Memory.Reservation, rres(r).Memory.Swap, rres(r).Memory.Kernel, rres(r).Memory.KernelTcp, rres(r).Memory.Swappiness, rres(r).Memory.DisableOomKiller, rres(r).Memory.UseHierarchy, rres(r).Cpu.Shares, rres(r).Cpu.Quota, rres(r).Cpu.Period, rres(r).Cpu.RealtimeRuntime, rres(r).Cpu.RealtimePeriod, rres(r).Cpu.Cpus, rres(r).Cpu.Mems, rres(r).BlockioClass, rres(r).RdtClass, rres(r).Pids, rres(r).HugepageLimits, elems(rres(r).HugepageLimits), map(rres(r).Unified)
+//@   -- join invariants (the function is verified in local mode: every join is a cut point)
+//@   keep [wf]     wfCreate(r)
+//@   keep [wfin]   resources != nil ==> avoids(ledger(r), resources.Unified)
+//@   keep [same]   old(has(r.owners, cid(r))) ==> has(r.owners, cid(r)) && ledger(r) == old(ledger(r))
+//@   keep [new]    !old(has(r.owners, cid(r))) && has(r.owners, cid(r)) ==> fresh(ledger(r)) && zeroedexcept(ledger(r), "memLimit", "memReservation", "memSwapLimit", "memKernelLimit", "memTCPLimit", "memSwappiness", "memDisableOomKiller", "memUseHierarchy", "cpuShares", "cpuQuota", "cpuPeriod", "cpuRealtimeRuntime", "cpuRealtimePeriod", "cpusetCpus", "cpusetMems", "blockioClass", "rdtClass", "pidsLimit", "hugepageLimits", "unified")
+//@   keep [absent] !has(r.owners, cid(r)) ==> !old(has(r.owners, cid(r)))
+//@   keep before resultOwners.claimMemLimit#1 [memLimit.pre]  ledger(r).memLimit == old(ledger(r).memLimit) && vres(r).Memory.Limit == old(vres(r).Memory.Limit) && rres(r).Memory.Limit == old(rres(r).Memory.Limit)
+//@   keep after resultOwners.claimMemLimit#1 [memLimit.post] (resources == nil || !(resources.Memory != nil && resources.Memory.Limit != nil) ==> ledger(r).memLimit == old(ledger(r).memLimit) && vres(r).Memory.Limit == old(vres(r).Memory.Limit) && rres(r).Memory.Limit == old(rres(r).Memory.Limit)) && (resources != nil && (resources.Memory != nil && resources.Memory.Limit != nil) ==> old(ledger(r).memLimit) == "" && ledger(r).memLimit == plugin && vres(r).Memory.Limit != nil && vres(r).Memory.Limit.Value == resources.Memory.Limit.Value && fresh(vres(r).Memory.Limit) && rres(r).Memory.Limit != nil && rres(r).Memory.Limit.Value == resources.Memory.Limit.Value && fresh(rres(r).Memory.Limit))
+//@   keep before resultOwners.claimMemReservation#1 [memReservation.pre]  ledger(r).memReservation == old(ledger(r).memReservation) && vres(r).Memory.Reservation == old(vres(r).Memory.Reservation) && rres(r).Memory.Reservation == old(rres(r).Memory.Reservation)
+//@   keep after resultOwners.claimMemReservation#1 [memReservation.post] (resources == nil || !(resources.Memory != nil && resources.Memory.Reservation != nil) ==> ledger(r).memReservation == old(ledger(r).memReservation) && vres(r).Memory.Reservation == old(vres(r).Memory.Reservation) && rres(r).Memory.Reservation == old(rres(r).Memory.Reservation)) && (resources != nil && (resources.Memory != nil && resources.Memory.Reservation != nil) ==> old(ledger(r).memReservation) == "" && ledger(r).memReservation == plugin && vres(r).Memory.Reservation != nil && vres(r).Memory.Reservation.Value == resources.Memory.Reservation.Value && fresh(vres(r).Memory.Reservation) && rres(r).Memory.Reservation != nil && rres(r).Memory.Reservation.Value == resources.Memory.Reservation.Value && fresh(rres(r).Memory.Reservation))
+//@   keep before resultOwners.claimMemSwapLimit#1 [memSwapLimit.pre]  ledger(r).memSwapLimit == old(ledger(r).memSwapLimit) && vres(r).Memory.Swap == old(vres(r).Memory.Swap) && rres(r).Memory.Swap == old(rres(r).Memory.Swap)
+//@   keep after resultOwners.claimMemSwapLimit#1 [memSwapLimit.post] (resources == nil || !(resources.Memory != nil && resources.Memory.Swap != nil) ==> ledger(r).memSwapLimit == old(ledger(r).memSwapLimit) && vres(r).Memory.Swap == old(vres(r).Memory.Swap) && rres(r).Memory.Swap == old(rres(r).Memory.Swap)) && (resources != nil && (resources.Memory != nil && resources.Memory.Swap != nil) ==> old(ledger(r).memSwapLimit) == "" && ledger(r).memSwapLimit == plugin && vres(r).Memory.Swap != nil && vres(r).Memory.Swap.Value == resources.Memory.Swap.Value && fresh(vres(r).Memory.Swap) && rres(r).Memory.Swap != nil && rres(r).Memory.Swap.Value == resources.Memory.Swap.Value && fresh(rres(r).Memory.Swap))
+//@   keep before resultOwners.claimMemKernelLimit#1 [memKernelLimit.pre]  ledger(r).memKernelLimit == old(ledger(r).memKernelLimit) && vres(r).Memory.Kernel == old(vres(r).Memory.Kernel) && rres(r).Memory.Kernel == old(rres(r).Memory.Kernel)
+//@   keep after resultOwners.claimMemKernelLimit#1 [memKernelLimit.post] (resources == nil || !(resources.Memory != nil && resources.Memory.Kernel != nil) ==> ledger(r).memKernelLimit == old(ledger(r).memKernelLimit) && vres(r).Memory.Kernel == old(vres(r).Memory.Kernel) && rres(r).Memory.Kernel == old(rres(r).Memory.Kernel)) && (resources != nil && (resources.Memory != nil && resources.Memory.Kernel != nil) ==> old(ledger(r).memKernelLimit) == "" && ledger(r).memKernelLimit == plugin && vres(r).Memory.Kernel != nil && vres(r).Memory.Kernel.Value == resources.Memory.Kernel.Value && fresh(vres(r).Memory.Kernel) && rres(r).Memory.Kernel != nil && rres(r).Memory.Kernel.Value == resources.Memory.Kernel.Value && fresh(rres(r).Memory.Kernel))
+//@   keep before resultOwners.claimMemTCPLimit#1 [memTCPLimit.pre]  ledger(r).memTCPLimit == old(ledger(r).memTCPLimit) && vres(r).Memory.KernelTcp == old(vres(r).Memory.KernelTcp) && rres(r).Memory.KernelTcp == old(rres(r).Memory.KernelTcp)
+//@   keep after resultOwners.claimMemTCPLimit#1 [memTCPLimit.post] (resources == nil || !(resources.Memory != nil && resources.Memory.KernelTcp != nil) ==> ledger(r).memTCPLimit == old(ledger(r).memTCPLimit) && vres(r).Memory.KernelTcp == old(vres(r).Memory.KernelTcp) && rres(r).Memory.KernelTcp == old(rres(r).Memory.KernelTcp)) && (resources != nil && (resources.Memory != nil && resources.Memory.KernelTcp != nil) ==> old(ledger(r).memTCPLimit) == "" && ledger(r).memTCPLimit == plugin && vres(r).Memory.KernelTcp != nil && vres(r).Memory.KernelTcp.Value == resources.Memory.KernelTcp.Value && fresh(vres(r).Memory.KernelTcp) && rres(r).Memory.KernelTcp != nil && rres(r).Memory.KernelTcp.Value == resources.Memory.KernelTcp.Value && fresh(rres(r).Memory.KernelTcp))
+//@   keep before resultOwners.claimMemSwappiness#1 [memSwappiness.pre]  ledger(r).memSwappiness == old(ledger(r).memSwappiness) && vres(r).Memory.Swappiness == old(vres(r).Memory.Swappiness) && rres(r).Memory.Swappiness == old(rres(r).Memory.Swappiness)
+//@   keep after resultOwners.claimMemSwappiness#1 [memSwappiness.post] (resources == nil || !(resources.Memory != nil && resources.Memory.Swappiness != nil) ==> ledger(r).memSwappiness == old(ledger(r).memSwappiness) && vres(r).Memory.Swappiness == old(vres(r).Memory.Swappiness) && rres(r).Memory.Swappiness == old(rres(r).Memory.Swappiness)) && (resources != nil && (resources.Memory != nil && resources.Memory.Swappiness != nil) ==> old(ledger(r).memSwappiness) == "" && ledger(r).memSwappiness == plugin && vres(r).Memory.Swappiness != nil && vres(r).Memory.Swappiness.Value == resources.Memory.Swappiness.Value && fresh(vres(r).Memory.Swappiness) && rres(r).Memory.Swappiness != nil && rres(r).Memory.Swappiness.Value == resources.Memory.Swappiness.Value && fresh(rres(r).Memory.Swappiness))
+//@   keep before resultOwners.claimMemDisableOomKiller#1 [memDisableOomKiller.pre]  ledger(r).memDisableOomKiller == old(ledger(r).memDisableOomKiller) && vres(r).Memory.DisableOomKiller == old(vres(r).Memory.DisableOomKiller) && rres(r).Memory.DisableOomKiller == old(rres(r).Memory.DisableOomKiller)
+//@   keep after resultOwners.claimMemDisableOomKiller#1 [memDisableOomKiller.post] (resources == nil || !(resources.Memory != nil && resources.Memory.DisableOomKiller != nil) ==> ledger(r).memDisableOomKiller == old(ledger(r).memDisableOomKiller) && vres(r).Memory.DisableOomKiller == old(vres(r).Memory.DisableOomKiller) && rres(r).Memory.DisableOomKiller == old(rres(r).Memory.DisableOomKiller)) && (resources != nil && (resources.Memory != nil && resources.Memory.DisableOomKiller != nil) ==> old(ledger(r).memDisableOomKiller) == "" && ledger(r).memDisableOomKiller == plugin && vres(r).Memory.DisableOomKiller != nil && vres(r).Memory.DisableOomKiller.Value == resources.Memory.DisableOomKiller.Value && fresh(vres(r).Memory.DisableOomKiller) && rres(r).Memory.DisableOomKiller != nil && rres(r).Memory.DisableOomKiller.Value == resources.Memory.DisableOomKiller.Value && fresh(rres(r).Memory.DisableOomKiller))
+//@   keep before resultOwners.claimMemUseHierarchy#1 [memUseHierarchy.pre]  ledger(r).memUseHierarchy == old(ledger(r).memUseHierarchy) && vres(r).Memory.UseHierarchy == old(vres(r).Memory.UseHierarchy) && rres(r).Memory.UseHierarchy == old(rres(r).Memory.UseHierarchy)
+//@   keep after resultOwners.claimMemUseHierarchy#1 [memUseHierarchy.post] (resources == nil || !(resources.Memory != nil && resources.Memory.UseHierarchy != nil) ==> ledger(r).memUseHierarchy == old(ledger(r).memUseHierarchy) && vres(r).Memory.UseHierarchy == old(vres(r).Memory.UseHierarchy) && rres(r).Memory.UseHierarchy == old(rres(r).Memory.UseHierarchy)) && (resources != nil && (resources.Memory != nil && resources.Memory.UseHierarchy != nil) ==> old(ledger(r).memUseHierarchy) == "" && ledger(r).memUseHierarchy == plugin && vres(r).Memory.UseHierarchy != nil && vres(r).Memory.UseHierarchy.Value == resources.Memory.UseHierarchy.Value && fresh(vres(r).Memory.UseHierarchy) && rres(r).Memory.UseHierarchy != nil && rres(r).Memory.UseHierarchy.Value == resources.Memory.UseHierarchy.Value && fresh(rres(r).Memory.UseHierarchy))
+//@   keep before resultOwners.claimCpuShares#1 [cpuShares.pre]  ledger(r).cpuShares == old(ledger(r).cpuShares) && vres(r).Cpu.Shares == old(vres(r).Cpu.Shares) && rres(r).Cpu.Shares == old(rres(r).Cpu.Shares)
+//@   keep after resultOwners.claimCpuShares#1 [cpuShares.post] (resources == nil || !(resources.Cpu != nil && resources.Cpu.Shares != nil) ==> ledger(r).cpuShares == old(ledger(r).cpuShares) && vres(r).Cpu.Shares == old(vres(r).Cpu.Shares) && rres(r).Cpu.Shares == old(rres(r).Cpu.Shares)) && (resources != nil && (resources.Cpu != nil && resources.Cpu.Shares != nil) ==> old(ledger(r).cpuShares) == "" && ledger(r).cpuShares == plugin && vres(r).Cpu.Shares != nil && vres(r).Cpu.Shares.Value == resources.Cpu.Shares.Value && fresh(vres(r).Cpu.Shares) && rres(r).Cpu.Shares != nil && rres(r).Cpu.Shares.Value == resources.Cpu.Shares.Value && fresh(rres(r).Cpu.Shares))
+//@   keep before resultOwners.claimCpuQuota#1 [cpuQuota.pre]  ledger(r).cpuQuota == old(ledger(r).cpuQuota) && vres(r).Cpu.Quota == old(vres(r).Cpu.Quota) && rres(r).Cpu.Quota == old(rres(r).Cpu.Quota)
+//@   keep after resultOwners.claimCpuQuota#1 [cpuQuota.post] (resources == nil || !(resources.Cpu != nil && resources.Cpu.Quota != nil) ==> ledger(r).cpuQuota == old(ledger(r).cpuQuota) && vres(r).Cpu.Quota == old(vres(r).Cpu.Quota) && rres(r).Cpu.Quota == old(rres(r).Cpu.Quota)) && (resources != nil && (resources.Cpu != nil && resources.Cpu.Quota != nil) ==> old(ledger(r).cpuQuota) == "" && ledger(r).cpuQuota == plugin && vres(r).Cpu.Quota != nil && vres(r).Cpu.Quota.Value == resources.Cpu.Quota.Value && fresh(vres(r).Cpu.Quota) && rres(r).Cpu.Quota != nil && rres(r).Cpu.Quota.Value == resources.Cpu.Quota.Value && fresh(rres(r).Cpu.Quota))
+//@   keep before resultOwners.claimCpuPeriod#1 [cpuPeriod.pre]  ledger(r).cpuPeriod == old(ledger(r).cpuPeriod) && vres(r).Cpu.Period == old(vres(r).Cpu.Period) && rres(r).Cpu.Period == old(rres(r).Cpu.Period)
+//@   keep after resultOwners.claimCpuPeriod#1 [cpuPeriod.post] (resources == nil || !(resources.Cpu != nil && resources.Cpu.Period != nil) ==> ledger(r).cpuPeriod == old(ledger(r).cpuPeriod) && vres(r).Cpu.Period == old(vres(r).Cpu.Period) && rres(r).Cpu.Period == old(rres(r).Cpu.Period)) && (resources != nil && (resources.Cpu != nil && resources.Cpu.Period != nil) ==> old(ledger(r).cpuPeriod) == "" && ledger(r).cpuPeriod == plugin && vres(r).Cpu.Period != nil && vres(r).Cpu.Period.Value == resources.Cpu.Period.Value && fresh(vres(r).Cpu.Period) && rres(r).Cpu.Period != nil && rres(r).Cpu.Period.Value == resources.Cpu.Period.Value && fresh(rres(r).Cpu.Period))
+//@   keep before resultOwners.claimCpuRealtimeRuntime#1 [cpuRealtimeRuntime.pre]  ledger(r).cpuRealtimeRuntime == old(ledger(r).cpuRealtimeRuntime) && vres(r).Cpu.RealtimeRuntime == old(vres(r).Cpu.RealtimeRuntime) && rres(r).Cpu.RealtimeRuntime == old(rres(r).Cpu.RealtimeRuntime)
+//@   keep after resultOwners.claimCpuRealtimeRuntime#1 [cpuRealtimeRuntime.post] (resources == nil || !(resources.Cpu != nil && resources.Cpu.RealtimeRuntime != nil) ==> ledger(r).cpuRealtimeRuntime == old(ledger(r).cpuRealtimeRuntime) && vres(r).Cpu.RealtimeRuntime == old(vres(r).Cpu.RealtimeRuntime) && rres(r).Cpu.RealtimeRuntime == old(rres(r).Cpu.RealtimeRuntime)) && (resources != nil && (resources.Cpu != nil && resources.Cpu.RealtimeRuntime != nil) ==> old(ledger(r).cpuRealtimeRuntime) == "" && ledger(r).cpuRealtimeRuntime == plugin && vres(r).Cpu.RealtimeRuntime != nil && vres(r).Cpu.RealtimeRuntime.Value == resources.Cpu.RealtimeRuntime.Value && fresh(vres(r).Cpu.RealtimeRuntime) && rres(r).Cpu.RealtimeRuntime != nil && rres(r).Cpu.RealtimeRuntime.Value == resources.Cpu.RealtimeRuntime.Value && fresh(rres(r).Cpu.RealtimeRuntime))
+//@   keep before resultOwners.claimCpuRealtimePeriod#1 [cpuRealtimePeriod.pre]  ledger(r).cpuRealtimePeriod == old(ledger(r).cpuRealtimePeriod) && vres(r).Cpu.RealtimePeriod == old(vres(r).Cpu.RealtimePeriod) && rres(r).Cpu.RealtimePeriod == old(rres(r).Cpu.RealtimePeriod)
+//@   keep after resultOwners.claimCpuRealtimePeriod#1 [cpuRealtimePeriod.post] (resources == nil || !(resources.Cpu != nil && resources.Cpu.RealtimePeriod != nil) ==> ledger(r).cpuRealtimePeriod == old(ledger(r).cpuRealtimePeriod) && vres(r).Cpu.RealtimePeriod == old(vres(r).Cpu.RealtimePeriod) && rres(r).Cpu.RealtimePeriod == old(rres(r).Cpu.RealtimePeriod)) && (resources != nil && (resources.Cpu != nil && resources.Cpu.RealtimePeriod != nil) ==> old(ledger(r).cpuRealtimePeriod) == "" && ledger(r).cpuRealtimePeriod == plugin && vres(r).Cpu.RealtimePeriod != nil && vres(r).Cpu.RealtimePeriod.Value == resources.Cpu.RealtimePeriod.Value && fresh(vres(r).Cpu.RealtimePeriod) && rres(r).Cpu.RealtimePeriod != nil && rres(r).Cpu.RealtimePeriod.Value == resources.Cpu.RealtimePeriod.Value && fresh(rres(r).Cpu.RealtimePeriod))
+//@   keep before resultOwners.claimCpusetCpus#1 [cpusetCpus.pre]  ledger(r).cpusetCpus == old(ledger(r).cpusetCpus) && vres(r).Cpu.Cpus == old(vres(r).Cpu.Cpus) && rres(r).Cpu.Cpus == old(rres(r).Cpu.Cpus)
+//@   keep after resultOwners.claimCpusetCpus#1 [cpusetCpus.post] (resources == nil || !(resources.Cpu != nil && resources.Cpu.Cpus != "") ==> ledger(r).cpusetCpus == old(ledger(r).cpusetCpus) && vres(r).Cpu.Cpus == old(vres(r).Cpu.Cpus) && rres(r).Cpu.Cpus == old(rres(r).Cpu.Cpus)) && (resources != nil && (resources.Cpu != nil && resources.Cpu.Cpus != "") ==> old(ledger(r).cpusetCpus) == "" && ledger(r).cpusetCpus == plugin && vres(r).Cpu.Cpus == resources.Cpu.Cpus && rres(r).Cpu.Cpus == resources.Cpu.Cpus)
+//@   keep before resultOwners.claimCpusetMems#1 [cpusetMems.pre]  ledger(r).cpusetMems == old(ledger(r).cpusetMems) && vres(r).Cpu.Mems == old(vres(r).Cpu.Mems) && rres(r).Cpu.Mems == old(rres(r).Cpu.Mems)
+//@   keep after resultOwners.claimCpusetMems#1 [cpusetMems.post] (resources == nil || !(resources.Cpu != nil && resources.Cpu.Mems != "") ==> ledger(r).cpusetMems == old(ledger(r).cpusetMems) && vres(r).Cpu.Mems == old(vres(r).Cpu.Mems) && rres(r).Cpu.Mems == old(rres(r).Cpu.Mems)) && (resources != nil && (resources.Cpu != nil && resources.Cpu.Mems != "") ==> old(ledger(r).cpusetMems) == "" && ledger(r).cpusetMems == plugin && vres(r).Cpu.Mems == resources.Cpu.Mems && rres(r).Cpu.Mems == resources.Cpu.Mems)
+//@   keep before resultOwners.claimBlockioClass#1 [blockioClass.pre]  ledger(r).blockioClass == old(ledger(r).blockioClass) && vres(r).BlockioClass == old(vres(r).BlockioClass) && rres(r).BlockioClass == old(rres(r).BlockioClass)
+//@   keep after resultOwners.claimBlockioClass#1 [blockioClass.post] (resources == nil || !(resources.BlockioClass != nil) ==> ledger(r).blockioClass == old(ledger(r).blockioClass) && vres(r).BlockioClass == old(vres(r).BlockioClass) && rres(r).BlockioClass == old(rres(r).BlockioClass)) && (resources != nil && (resources.BlockioClass != nil) ==> old(ledger(r).blockioClass) == "" && ledger(r).blockioClass == plugin && vres(r).BlockioClass != nil && vres(r).BlockioClass.Value == resources.BlockioClass.Value && fresh(vres(r).BlockioClass) && rres(r).BlockioClass != nil && rres(r).BlockioClass.Value == resources.BlockioClass.Value && fresh(rres(r).BlockioClass))
+//@   keep before resultOwners.claimRdtClass#1 [rdtClass.pre]  ledger(r).rdtClass == old(ledger(r).rdtClass) && vres(r).RdtClass == old(vres(r).RdtClass) && rres(r).RdtClass == old(rres(r).RdtClass)
+//@   keep after resultOwners.claimRdtClass#1 [rdtClass.post] (resources == nil || !(resources.RdtClass != nil) ==> ledger(r).rdtClass == old(ledger(r).rdtClass) && vres(r).RdtClass == old(vres(r).RdtClass) && rres(r).RdtClass == old(rres(r).RdtClass)) && (resources != nil && (resources.RdtClass != nil) ==> old(ledger(r).rdtClass) == "" && ledger(r).rdtClass == plugin && vres(r).RdtClass != nil && vres(r).RdtClass.Value == resources.RdtClass.Value && fresh(vres(r).RdtClass) && rres(r).RdtClass != nil && rres(r).RdtClass.Value == resources.RdtClass.Value && fresh(rres(r).RdtClass))
+//@   keep before resultOwners.claimPidsLimit#1 [pidsLimit.pre]  ledger(r).pidsLimit == old(ledger(r).pidsLimit) && vres(r).Pids == old(vres(r).Pids) && rres(r).Pids == old(rres(r).Pids)
+//@   keep after resultOwners.claimPidsLimit#1 [pidsLimit.post] (resources == nil || !(resources.Pids != nil) ==> ledger(r).pidsLimit == old(ledger(r).pidsLimit) && vres(r).Pids == old(vres(r).Pids) && rres(r).Pids == old(rres(r).Pids)) && (resources != nil && (resources.Pids != nil) ==> old(ledger(r).pidsLimit) == "" && ledger(r).pidsLimit == plugin && vres(r).Pids != nil && vres(r).Pids.Limit == resources.Pids.Limit && rres(r).Pids == vres(r).Pids && fresh(rres(r).Pids))
+//@   keep before resultOwners.claimHugepageLimit#1 [hp.pre] ledger(r).hugepageLimits == old(ledger(r).hugepageLimits) && rres(r).HugepageLimits == old(rres(r).HugepageLimits) && vres(r).HugepageLimits == old(vres(r).HugepageLimits)
+//@   keep before resultOwners.claimHugepageLimit#1 [hp.premap] forall k string :: has(ledger(r).hugepageLimits, k) == old(has(ledger(r).hugepageLimits, k)) && ledger(r).hugepageLimits[k] == old(ledger(r).hugepageLimits[k])
+//@   keep after resultOwners.claimHugepageLimit#1 [hp.reply.len] resources != nil ==> len(rres(r).HugepageLimits) == old(len(rres(r).HugepageLimits)) + len(resources.HugepageLimits)
+//@   keep after resultOwners.claimHugepageLimit#1 [hp.reply.old] resources != nil ==> forall i int :: 0 <= i && i < old(len(rres(r).HugepageLimits)) ==> rres(r).HugepageLimits[i] == old(rres(r).HugepageLimits[i])
+//@   keep after resultOwners.claimHugepageLimit#1 [hp.reply.new] resources != nil ==> forall i int :: 0 <= i && i < len(resources.HugepageLimits) ==> resources.HugepageLimits[i] == rres(r).HugepageLimits[old(len(rres(r).HugepageLimits)) + i]
+//@   keep [hp.reply.arr] base(rres(r).HugepageLimits) == old(base(rres(r).HugepageLimits)) || fresh(rres(r).HugepageLimits)
+//@   keep after resultOwners.claimHugepageLimit#1 [hp.view.len] resources != nil ==> len(vres(r).HugepageLimits) == old(len(vres(r).HugepageLimits)) + len(resources.HugepageLimits)
+//@   keep after resultOwners.claimHugepageLimit#1 [hp.view.old] resources != nil ==> forall i int :: 0 <= i && i < old(len(vres(r).HugepageLimits)) ==> vres(r).HugepageLimits[i] == old(vres(r).HugepageLimits[i])
+//@   keep after resultOwners.claimHugepageLimit#1 [hp.view.new] resources != nil ==> forall i int :: 0 <= i && i < len(resources.HugepageLimits) ==> resources.HugepageLimits[i] == vres(r).HugepageLimits[old(len(vres(r).HugepageLimits)) + i]
+//@   keep [hp.view.arr] base(vres(r).HugepageLimits) == old(base(vres(r).HugepageLimits)) || fresh(vres(r).HugepageLimits)
+//@   keep after resultOwners.claimHugepageLimit#1 [hp.owned] resources != nil ==> forall i int :: 0 <= i && i < len(resources.HugepageLimits) ==> !old(has(ledger(r).hugepageLimits, resources.HugepageLimits[i].PageSize)) && has(ledger(r).hugepageLimits, resources.HugepageLimits[i].PageSize) && ledger(r).hugepageLimits[resources.HugepageLimits[i].PageSize] == plugin
+//@   keep [hp.kept] forall k string :: old(has(ledger(r).hugepageLimits, k)) ==> has(ledger(r).hugepageLimits, k) && ledger(r).hugepageLimits[k] == old(ledger(r).hugepageLimits[k])
+//@   keep [hp.sep] sep(base(vres(r).HugepageLimits), base(rres(r).HugepageLimits))
+//@   keep [hp.map] mapStable(ledger(r).hugepageLimits, old(ledger(r).hugepageLimits))
+//@   keep before resultOwners.claimUnified#1 [uni.pre] forall k string :: (has(ledger(r).unified, k) == old(has(ledger(r).unified, k)) && ledger(r).unified[k] == old(ledger(r).unified[k]) && has(rres(r).Unified, k) == old(has(rres(r).Unified, k)) && rres(r).Unified[k] == old(rres(r).Unified[k]) && has(vres(r).Unified, k) == old(has(vres(r).Unified, k)) && vres(r).Unified[k] == old(vres(r).Unified[k]))
+//@   keep after resultOwners.claimUnified#1 [uni.set] resources != nil ==> forall k string :: has(resources.Unified, k) ==> !old(has(ledger(r).unified, k)) && has(ledger(r).unified, k) && ledger(r).unified[k] == plugin
+//@                  && has(rres(r).Unified, k) && rres(r).Unified[k] == resources.Unified[k] && has(vres(r).Unified, k) && vres(r).Unified[k] == resources.Unified[k]
+//@   keep after resultOwners.claimUnified#1 [uni.keep] forall k string :: (resources == nil || !has(resources.Unified, k)) ==> (has(ledger(r).unified, k) == old(has(ledger(r).unified, k)) && ledger(r).unified[k] == old(ledger(r).unified[k]) && has(rres(r).Unified, k) == old(has(rres(r).Unified, k)) && rres(r).Unified[k] == old(rres(r).Unified[k]) && has(vres(r).Unified, k) == old(has(vres(r).Unified, k)) && vres(r).Unified[k] == old(vres(r).Unified[k]))
+//@   keep [uni.map] mapStable(ledger(r).unified, old(ledger(r).unified))
+//@   ensures [noop]  resources == nil ==> result == nil && ledgerSame(r)
+//@   ensures [c02]   resources != nil && old(resDisjoint(r, resources)) ==> result == nil
+//@   ensures [ledger.same]   wfRO(r.owners) && (old(has(r.owners, cid(r))) ==> has(r.owners, cid(r)) && ledger(r) == old(ledger(r)))
+//@   ensures [ledger.new]    !old(has(r.owners, cid(r))) && has(r.owners, cid(r)) ==> fresh(ledger(r)) && zeroedexcept(ledger(r), "memLimit", "memReservation", "memSwapLimit", "memKernelLimit", "memTCPLimit", "memSwappiness", "memDisableOomKiller", "memUseHierarchy", "cpuShares", "cpuQuota", "cpuPeriod", "cpuRealtimeRuntime", "cpuRealtimePeriod", "cpusetCpus", "cpusetMems", "blockioClass", "rdtClass", "pidsLimit", "hugepageLimits", "unified")
+//@   ensures [memLimit.c01]   resources != nil && (resources.Memory != nil && resources.Memory.Limit != nil) && old(ledger(r).memLimit) != "" ==> result != nil
+//@   ensures [memLimit.set]   result == nil && resources != nil && (resources.Memory != nil && resources.Memory.Limit != nil) ==> ledger(r).memLimit == plugin && vres(r).Memory.Limit != nil && vres(r).Memory.Limit.Value == resources.Memory.Limit.Value && fresh(vres(r).Memory.Limit) && rres(r).Memory.Limit != nil && rres(r).Memory.Limit.Value == resources.Memory.Limit.Value && fresh(rres(r).Memory.Limit)
+//@   ensures [memLimit.keep]  resources == nil || !(resources.Memory != nil && resources.Memory.Limit != nil) ==> ledger(r).memLimit == old(ledger(r).memLimit) && vres(r).Memory.Limit == old(vres(r).Memory.Limit) && rres(r).Memory.Limit == old(rres(r).Memory.Limit)
+//@   ensures [memReservation.c01]   resources != nil && (resources.Memory != nil && resources.Memory.Reservation != nil) && old(ledger(r).memReservation) != "" ==> result != nil
+//@   ensures [memReservation.set]   result == nil && resources != nil && (resources.Memory != nil && resources.Memory.Reservation != nil) ==> ledger(r).memReservation == plugin && vres(r).Memory.Reservation != nil && vres(r).Memory.Reservation.Value == resources.Memory.Reservation.Value && fresh(vres(r).Memory.Reservation) && rres(r).Memory.Reservation != nil && rres(r).Memory.Reservation.Value == resources.Memory.Reservation.Value && fresh(rres(r).Memory.Reservation)
+//@   ensures [memReservation.keep]  resources == nil || !(resources.Memory != nil && resources.Memory.Reservation != nil) ==> ledger(r).memReservation == old(ledger(r).memReservation) && vres(r).Memory.Reservation == old(vres(r).Memory.Reservation) && rres(r).Memory.Reservation == old(rres(r).Memory.Reservation)
+//@   ensures [memSwapLimit.c01]   resources != nil && (resources.Memory != nil && resources.Memory.Swap != nil) && old(ledger(r).memSwapLimit) != "" ==> result != nil
+//@   ensures [memSwapLimit.set]   result == nil && resources != nil && (resources.Memory != nil && resources.Memory.Swap != nil) ==> ledger(r).memSwapLimit == plugin && vres(r).Memory.Swap != nil && vres(r).Memory.Swap.Value == resources.Memory.Swap.Value && fresh(vres(r).Memory.Swap) && rres(r).Memory.Swap != nil && rres(r).Memory.Swap.Value == resources.Memory.Swap.Value && fresh(rres(r).Memory.Swap)
+//@   ensures [memSwapLimit.keep]  resources == nil || !(resources.Memory != nil && resources.Memory.Swap != nil) ==> ledger(r).memSwapLimit == old(ledger(r).memSwapLimit) && vres(r).Memory.Swap == old(vres(r).Memory.Swap) && rres(r).Memory.Swap == old(rres(r).Memory.Swap)
+//@   ensures [memKernelLimit.c01]   resources != nil && (resources.Memory != nil && resources.Memory.Kernel != nil) && old(ledger(r).memKernelLimit) != "" ==> result != nil
+//@   ensures [memKernelLimit.set]   result == nil && resources != nil && (resources.Memory != nil && resources.Memory.Kernel != nil) ==> ledger(r).memKernelLimit == plugin && vres(r).Memory.Kernel != nil && vres(r).Memory.Kernel.Value == resources.Memory.Kernel.Value && fresh(vres(r).Memory.Kernel) && rres(r).Memory.Kernel != nil && rres(r).Memory.Kernel.Value == resources.Memory.Kernel.Value && fresh(rres(r).Memory.Kernel)
+//@   ensures [memKernelLimit.keep]  resources == nil || !(resources.Memory != nil && resources.Memory.Kernel != nil) ==> ledger(r).memKernelLimit == old(ledger(r).memKernelLimit) && vres(r).Memory.Kernel == old(vres(r).Memory.Kernel) && rres(r).Memory.Kernel == old(rres(r).Memory.Kernel)
+//@   ensures [memTCPLimit.c01]   resources != nil && (resources.Memory != nil && resources.Memory.KernelTcp != nil) && old(ledger(r).memTCPLimit) != "" ==> result != nil
+//@   ensures [memTCPLimit.set]   result == nil && resources != nil && (resources.Memory != nil && resources.Memory.KernelTcp != nil) ==> ledger(r).memTCPLimit == plugin && vres(r).Memory.KernelTcp != nil && vres(r).Memory.KernelTcp.Value == resources.Memory.KernelTcp.Value && fresh(vres(r).Memory.KernelTcp) && rres(r).Memory.KernelTcp != nil && rres(r).Memory.KernelTcp.Value == resources.Memory.KernelTcp.Value && fresh(rres(r).Memory.KernelTcp)
+//@   ensures [memTCPLimit.keep]  resources == nil || !(resources.Memory != nil && resources.Memory.KernelTcp != nil) ==> ledger(r).memTCPLimit == old(ledger(r).memTCPLimit) && vres(r).Memory.KernelTcp == old(vres(r).Memory.KernelTcp) && rres(r).Memory.KernelTcp == old(rres(r).Memory.KernelTcp)
+//@   ensures [memSwappiness.c01]   resources != nil && (resources.Memory != nil && resources.Memory.Swappiness != nil) && old(ledger(r).memSwappiness) != "" ==> result != nil
+//@   ensures [memSwappiness.set]   result == nil && resources != nil && (resources.Memory != nil && resources.Memory.Swappiness != nil) ==> ledger(r).memSwappiness == plugin && vres(r).Memory.Swappiness != nil && vres(r).Memory.Swappiness.Value == resources.Memory.Swappiness.Value && fresh(vres(r).Memory.Swappiness) && rres(r).Memory.Swappiness != nil && rres(r).Memory.Swappiness.Value == resources.Memory.Swappiness.Value && fresh(rres(r).Memory.Swappiness)
+//@   ensures [memSwappiness.keep]  resources == nil || !(resources.Memory != nil && resources.Memory.Swappiness != nil) ==> ledger(r).memSwappiness == old(ledger(r).memSwappiness) && vres(r).Memory.Swappiness == old(vres(r).Memory.Swappiness) && rres(r).Memory.Swappiness == old(rres(r).Memory.Swappiness)
+//@   ensures [memDisableOomKiller.c01]   resources != nil && (resources.Memory != nil && resources.Memory.DisableOomKiller != nil) && old(ledger(r).memDisableOomKiller) != "" ==> result != nil
+//@   ensures [memDisableOomKiller.set]   result == nil && resources != nil && (resources.Memory != nil && resources.Memory.DisableOomKiller != nil) ==> ledger(r).memDisableOomKiller == plugin && vres(r).Memory.DisableOomKiller != nil && vres(r).Memory.DisableOomKiller.Value == resources.Memory.DisableOomKiller.Value && fresh(vres(r).Memory.DisableOomKiller) && rres(r).Memory.DisableOomKiller != nil && rres(r).Memory.DisableOomKiller.Value == resources.Memory.DisableOomKiller.Value && fresh(rres(r).Memory.DisableOomKiller)
+//@   ensures [memDisableOomKiller.keep]  resources == nil || !(resources.Memory != nil && resources.Memory.DisableOomKiller != nil) ==> ledger(r).memDisableOomKiller == old(ledger(r).memDisableOomKiller) && vres(r).Memory.DisableOomKiller == old(vres(r).Memory.DisableOomKiller) && rres(r).Memory.DisableOomKiller == old(rres(r).Memory.DisableOomKiller)
+//@   ensures [memUseHierarchy.c01]   resources != nil && (resources.Memory != nil && resources.Memory.UseHierarchy != nil) && old(ledger(r).memUseHierarchy) != "" ==> result != nil
+//@   ensures [memUseHierarchy.set]   result == nil && resources != nil && (resources.Memory != nil && resources.Memory.UseHierarchy != nil) ==> ledger(r).memUseHierarchy == plugin && vres(r).Memory.UseHierarchy != nil && vres(r).Memory.UseHierarchy.Value == resources.Memory.UseHierarchy.Value && fresh(vres(r).Memory.UseHierarchy) && rres(r).Memory.UseHierarchy != nil && rres(r).Memory.UseHierarchy.Value == resources.Memory.UseHierarchy.Value && fresh(rres(r).Memory.UseHierarchy)
+//@   ensures [memUseHierarchy.keep]  resources == nil || !(resources.Memory != nil && resources.Memory.UseHierarchy != nil) ==> ledger(r).memUseHierarchy == old(ledger(r).memUseHierarchy) && vres(r).Memory.UseHierarchy == old(vres(r).Memory.UseHierarchy) && rres(r).Memory.UseHierarchy == old(rres(r).Memory.UseHierarchy)
+//@   ensures [cpuShares.c01]   resources != nil && (resources.Cpu != nil && resources.Cpu.Shares != nil) && old(ledger(r).cpuShares) != "" ==> result != nil
+//@   ensures [cpuShares.set]   result == nil && resources != nil && (resources.Cpu != nil && resources.Cpu.Shares != nil) ==> ledger(r).cpuShares == plugin && vres(r).Cpu.Shares != nil && vres(r).Cpu.Shares.Value == resources.Cpu.Shares.Value && fresh(vres(r).Cpu.Shares) && rres(r).Cpu.Shares != nil && rres(r).Cpu.Shares.Value == resources.Cpu.Shares.Value && fresh(rres(r).Cpu.Shares)
+//@   ensures [cpuShares.keep]  resources == nil || !(resources.Cpu != nil && resources.Cpu.Shares != nil) ==> ledger(r).cpuShares == old(ledger(r).cpuShares) && vres(r).Cpu.Shares == old(vres(r).Cpu.Shares) && rres(r).Cpu.Shares == old(rres(r).Cpu.Shares)
+//@   ensures [cpuQuota.c01]   resources != nil && (resources.Cpu != nil && resources.Cpu.Quota != nil) && old(ledger(r).cpuQuota) != "" ==> result != nil
+//@   ensures [cpuQuota.set]   result == nil && resources != nil && (resources.Cpu != nil && resources.Cpu.Quota != nil) ==> ledger(r).cpuQuota == plugin && vres(r).Cpu.Quota != nil && vres(r).Cpu.Quota.Value == resources.Cpu.Quota.Value && fresh(vres(r).Cpu.Quota) && rres(r).Cpu.Quota != nil && rres(r).Cpu.Quota.Value == resources.Cpu.Quota.Value && fresh(rres(r).Cpu.Quota)
+//@   ensures [cpuQuota.keep]  resources == nil || !(resources.Cpu != nil && resources.Cpu.Quota != nil) ==> ledger(r).cpuQuota == old(ledger(r).cpuQuota) && vres(r).Cpu.Quota == old(vres(r).Cpu.Quota) && rres(r).Cpu.Quota == old(rres(r).Cpu.Quota)
+//@   ensures [cpuPeriod.c01]   resources != nil && (resources.Cpu != nil && resources.Cpu.Period != nil) && old(ledger(r).cpuPeriod) != "" ==> result != nil
+//@   ensures [cpuPeriod.set]   result == nil && resources != nil && (resources.Cpu != nil && resources.Cpu.Period != nil) ==> ledger(r).cpuPeriod == plugin && vres(r).Cpu.Period != nil && vres(r).Cpu.Period.Value == resources.Cpu.Period.Value && fresh(vres(r).Cpu.Period) && rres(r).Cpu.Period != nil && rres(r).Cpu.Period.Value == resources.Cpu.Period.Value && fresh(rres(r).Cpu.Period)
+//@   ensures [cpuPeriod.keep]  resources == nil || !(resources.Cpu != nil && resources.Cpu.Period != nil) ==> ledger(r).cpuPeriod == old(ledger(r).cpuPeriod) && vres(r).Cpu.Period == old(vres(r).Cpu.Period) && rres(r).Cpu.Period == old(rres(r).Cpu.Period)
+//@   ensures [cpuRealtimeRuntime.c01]   resources != nil && (resources.Cpu != nil && resources.Cpu.RealtimeRuntime != nil) && old(ledger(r).cpuRealtimeRuntime) != "" ==> result != nil
+//@   ensures [cpuRealtimeRuntime.set]   result == nil && resources != nil && (resources.Cpu != nil && resources.Cpu.RealtimeRuntime != nil) ==> ledger(r).cpuRealtimeRuntime == plugin && vres(r).Cpu.RealtimeRuntime != nil && vres(r).Cpu.RealtimeRuntime.Value == resources.Cpu.RealtimeRuntime.Value && fresh(vres(r).Cpu.RealtimeRuntime) && rres(r).Cpu.RealtimeRuntime != nil && rres(r).Cpu.RealtimeRuntime.Value == resources.Cpu.RealtimeRuntime.Value && fresh(rres(r).Cpu.RealtimeRuntime)
+//@   ensures [cpuRealtimeRuntime.keep]  resources == nil || !(resources.Cpu != nil && resources.Cpu.RealtimeRuntime != nil) ==> ledger(r).cpuRealtimeRuntime == old(ledger(r).cpuRealtimeRuntime) && vres(r).Cpu.RealtimeRuntime == old(vres(r).Cpu.RealtimeRuntime) && rres(r).Cpu.RealtimeRuntime == old(rres(r).Cpu.RealtimeRuntime)
+//@   ensures [cpuRealtimePeriod.c01]   resources != nil && (resources.Cpu != nil && resources.Cpu.RealtimePeriod != nil) && old(ledger(r).cpuRealtimePeriod) != "" ==> result != nil
+//@   ensures [cpuRealtimePeriod.set]   result == nil && resources != nil && (resources.Cpu != nil && resources.Cpu.RealtimePeriod != nil) ==> ledger(r).cpuRealtimePeriod == plugin && vres(r).Cpu.RealtimePeriod != nil && vres(r).Cpu.RealtimePeriod.Value == resources.Cpu.RealtimePeriod.Value && fresh(vres(r).Cpu.RealtimePeriod) && rres(r).Cpu.RealtimePeriod != nil && rres(r).Cpu.RealtimePeriod.Value == resources.Cpu.RealtimePeriod.Value && fresh(rres(r).Cpu.RealtimePeriod)
+//@   ensures [cpuRealtimePeriod.keep]  resources == nil || !(resources.Cpu != nil && resources.Cpu.RealtimePeriod != nil) ==> ledger(r).cpuRealtimePeriod == old(ledger(r).cpuRealtimePeriod) && vres(r).Cpu.RealtimePeriod == old(vres(r).Cpu.RealtimePeriod) && rres(r).Cpu.RealtimePeriod == old(rres(r).Cpu.RealtimePeriod)
+//@   ensures [cpusetCpus.c01]   resources != nil && (resources.Cpu != nil && resources.Cpu.Cpus != "") && old(ledger(r).cpusetCpus) != "" ==> result != nil
+//@   ensures [cpusetCpus.set]   result == nil && resources != nil && (resources.Cpu != nil && resources.Cpu.Cpus != "") ==> ledger(r).cpusetCpus == plugin && vres(r).Cpu.Cpus == resources.Cpu.Cpus && rres(r).Cpu.Cpus == resources.Cpu.Cpus
+//@   ensures [cpusetCpus.keep]  resources == nil || !(resources.Cpu != nil && resources.Cpu.Cpus != "") ==> ledger(r).cpusetCpus == old(ledger(r).cpusetCpus) && vres(r).Cpu.Cpus == old(vres(r).Cpu.Cpus) && rres(r).Cpu.Cpus == old(rres(r).Cpu.Cpus)
+//@   ensures [cpusetMems.c01]   resources != nil && (resources.Cpu != nil && resources.Cpu.Mems != "") && old(ledger(r).cpusetMems) != "" ==> result != nil
+//@   ensures [cpusetMems.set]   result == nil && resources != nil && (resources.Cpu != nil && resources.Cpu.Mems != "") ==> ledger(r).cpusetMems == plugin && vres(r).Cpu.Mems == resources.Cpu.Mems && rres(r).Cpu.Mems == resources.Cpu.Mems
+//@   ensures [cpusetMems.keep]  resources == nil || !(resources.Cpu != nil && resources.Cpu.Mems != "") ==> ledger(r).cpusetMems == old(ledger(r).cpusetMems) && vres(r).Cpu.Mems == old(vres(r).Cpu.Mems) && rres(r).Cpu.Mems == old(rres(r).Cpu.Mems)
+//@   ensures [blockioClass.c01]   resources != nil && (resources.BlockioClass != nil) && old(ledger(r).blockioClass) != "" ==> result != nil
+//@   ensures [blockioClass.set]   result == nil && resources != nil && (resources.BlockioClass != nil) ==> ledger(r).blockioClass == plugin && vres(r).BlockioClass != nil && vres(r).BlockioClass.Value == resources.BlockioClass.Value && fresh(vres(r).BlockioClass) && rres(r).BlockioClass != nil && rres(r).BlockioClass.Value == resources.BlockioClass.Value && fresh(rres(r).BlockioClass)
+//@   ensures [blockioClass.keep]  resources == nil || !(resources.BlockioClass != nil) ==> ledger(r).blockioClass == old(ledger(r).blockioClass) && vres(r).BlockioClass == old(vres(r).BlockioClass) && rres(r).BlockioClass == old(rres(r).BlockioClass)
+//@   ensures [rdtClass.c01]   resources != nil && (resources.RdtClass != nil) && old(ledger(r).rdtClass) != "" ==> result != nil
+//@   ensures [rdtClass.set]   result == nil && resources != nil && (resources.RdtClass != nil) ==> ledger(r).rdtClass == plugin && vres(r).RdtClass != nil && vres(r).RdtClass.Value == resources.RdtClass.Value && fresh(vres(r).RdtClass) && rres(r).RdtClass != nil && rres(r).RdtClass.Value == resources.RdtClass.Value && fresh(rres(r).RdtClass)
+//@   ensures [rdtClass.keep]  resources == nil || !(resources.RdtClass != nil) ==> ledger(r).rdtClass == old(ledger(r).rdtClass) && vres(r).RdtClass == old(vres(r).RdtClass) && rres(r).RdtClass == old(rres(r).RdtClass)
+//@   ensures [pidsLimit.c01]   resources != nil && (resources.Pids != nil) && old(ledger(r).pidsLimit) != "" ==> result != nil
+//@   ensures [pidsLimit.set]   result == nil && resources != nil && (resources.Pids != nil) ==> ledger(r).pidsLimit == plugin && vres(r).Pids != nil && vres(r).Pids.Limit == resources.Pids.Limit && rres(r).Pids == vres(r).Pids && fresh(rres(r).Pids)
+//@   ensures [pidsLimit.keep]  resources == nil || !(resources.Pids != nil) ==> ledger(r).pidsLimit == old(ledger(r).pidsLimit) && vres(r).Pids == old(vres(r).Pids) && rres(r).Pids == old(rres(r).Pids)
+//@   ensures [hp.reply] result == nil && resources != nil ==> len(rres(r).HugepageLimits) == old(len(rres(r).HugepageLimits)) + len(resources.HugepageLimits)
+//@                  && (forall i int :: 0 <= i && i < old(len(rres(r).HugepageLimits)) ==> rres(r).HugepageLimits[i] == old(rres(r).HugepageLimits[i]))
+//@                  && (forall i int :: 0 <= i && i < len(resources.HugepageLimits) ==> resources.HugepageLimits[i] == rres(r).HugepageLimits[old(len(rres(r).HugepageLimits)) + i])
+//@   ensures [hp.view] result == nil && resources != nil ==> len(vres(r).HugepageLimits) == old(len(vres(r).HugepageLimits)) + len(resources.HugepageLimits)
+//@                  && (forall i int :: 0 <= i && i < old(len(vres(r).HugepageLimits)) ==> vres(r).HugepageLimits[i] == old(vres(r).HugepageLimits[i]))
+//@                  && (forall i int :: 0 <= i && i < len(resources.HugepageLimits) ==> resources.HugepageLimits[i] == vres(r).HugepageLimits[old(len(vres(r).HugepageLimits)) + i])
+//@   ensures [hp.c01]   resources != nil ==> forall i int :: 0 <= i && i < len(resources.HugepageLimits) && old(has(ledger(r).hugepageLimits, resources.HugepageLimits[i].PageSize)) ==> result != nil
+//@   ensures [hp.owned] result == nil && resources != nil ==> forall i int :: 0 <= i && i < len(resources.HugepageLimits) ==> has(ledger(r).hugepageLimits, resources.HugepageLimits[i].PageSize) && ledger(r).hugepageLimits[resources.HugepageLimits[i].PageSize] == plugin
+//@   ensures [hp.kept]  forall k string :: old(has(ledger(r).hugepageLimits, k)) ==> has(ledger(r).hugepageLimits, k) && ledger(r).hugepageLimits[k] == old(ledger(r).hugepageLimits[k])
+//@   ensures [hp.arr]   (base(rres(r).HugepageLimits) == old(base(rres(r).HugepageLimits)) || fresh(rres(r).HugepageLimits)) && (base(vres(r).HugepageLimits) == old(base(vres(r).HugepageLimits)) || fresh(vres(r).HugepageLimits)) && sep(base(vres(r).HugepageLimits), base(rres(r).HugepageLimits))
+//@   ensures [uni.c01]  resources != nil ==> forall k string :: has(resources.Unified, k) && old(has(ledger(r).unified, k)) ==> result != nil
+//@   ensures [uni.set]  result == nil && resources != nil ==> forall k string :: has(resources.Unified, k) ==> has(ledger(r).unified, k) && ledger(r).unified[k] == plugin
+//@                  && has(rres(r).Unified, k) && rres(r).Unified[k] == resources.Unified[k] && has(vres(r).Unified, k) && vres(r).Unified[k] == resources.Unified[k]
+//@   ensures [uni.keep] forall k string :: (resources == nil || !has(resources.Unified, k)) ==> has(ledger(r).unified, k) == old(has(ledger(r).unified, k)) && ledger(r).unified[k] == old(ledger(r).unified[k])
+//@                  && has(rres(r).Unified, k) == old(has(rres(r).Unified, k)) && rres(r).Unified[k] == old(rres(r).Unified[k]) && has(vres(r).Unified, k) == old(has(vres(r).Unified, k)) && vres(r).Unified[k] == old(vres(r).Unified[k])
+//@   ensures [uni.kept] forall k string :: old(has(ledger(r).unified, k)) ==> has(ledger(r).unified, k) && ledger(r).unified[k] == old(ledger(r).unified[k])
+//@   loop 1 modifies mapkey(r.owners, cid(r)), ledger(r).hugepageLimits, map(ledger(r).hugepageLimits), rres(r).HugepageLimits, elems(rres(r).HugepageLimits), vres(r).HugepageLimits, elems(vres(r).HugepageLimits)
+//@   loop 1 invariant 0 <= idx + 1 && idx + 1 <= len(resources.HugepageLimits)
+//@   loop 1 invariant wfCreate(r) && cid(r) == old(cid(r)) && vres(r) == old(vres(r)) && rres(r) == old(rres(r)) && reply(r) == old(reply(r)) && view(r) == old(view(r)) && r.request.create == old(r.request.create)
+//@   loop 1 invariant wfRO(r.owners) && (pre(has(r.owners, cid(r))) ==> has(r.owners, cid(r)) && ledger(r) == pre(ledger(r)))
+//@   loop 1 invariant !pre(has(r.owners, cid(r))) && has(r.owners, cid(r)) ==> fresh(ledger(r)) && prefresh(ledger(r)) && zeroedexcept(ledger(r), "hugepageLimits")
+//@   loop 1 invariant idx == 0 - 1 ==> has(r.owners, cid(r)) == pre(has(r.owners, cid(r))) && ledger(r).hugepageLimits == pre(ledger(r).hugepageLimits)
+//@   loop 1 invariant idx >= 0 ==> has(r.owners, cid(r))
+//@   loop 1 invariant mapStable(ledger(r).hugepageLimits, old(ledger(r).hugepageLimits))
+//@   loop 1 invariant (pre(ledger(r).hugepageLimits) != nil ==> ledger(r).hugepageLimits == pre(ledger(r).hugepageLimits)) && (pre(ledger(r).hugepageLimits) == nil ==> ledger(r).hugepageLimits == nil || prefresh(ledger(r).hugepageLimits))
+//@   loop 1 invariant forall k string :: old(has(ledger(r).hugepageLimits, k)) ==> has(ledger(r).hugepageLimits, k) && ledger(r).hugepageLimits[k] == old(ledger(r).hugepageLimits[k])
+//@   loop 1 invariant forall i int :: 0 <= i && i <= idx ==> !old(has(ledger(r).hugepageLimits, resources.HugepageLimits[i].PageSize)) && has(ledger(r).hugepageLimits, resources.HugepageLimits[i].PageSize) && ledger(r).hugepageLimits[resources.HugepageLimits[i].PageSize] == plugin
+//@   loop 1 invariant old(resDisjoint(r, resources)) ==> forall j int :: idx < j && j < len(resources.HugepageLimits) ==> !has(ledger(r).hugepageLimits, resources.HugepageLimits[j].PageSize)
+//@   loop 1 invariant len(rres(r).HugepageLimits) == old(len(rres(r).HugepageLimits)) + idx + 1
+//@   loop 1 invariant forall i int :: 0 <= i && i < old(len(rres(r).HugepageLimits)) ==> rres(r).HugepageLimits[i] == old(rres(r).HugepageLimits[i])
+//@   loop 1 invariant forall i int :: 0 <= i && i <= idx ==> resources.HugepageLimits[i] == rres(r).HugepageLimits[old(len(rres(r).HugepageLimits)) + i]
+//@   loop 1 invariant base(rres(r).HugepageLimits) == old(base(rres(r).HugepageLimits)) || fresh(rres(r).HugepageLimits)
+//@   loop 1 invariant len(vres(r).HugepageLimits) == old(len(vres(r).HugepageLimits)) + idx + 1
+//@   loop 1 invariant forall i int :: 0 <= i && i < old(len(vres(r).HugepageLimits)) ==> vres(r).HugepageLimits[i] == old(vres(r).HugepageLimits[i])
+//@   loop 1 invariant forall i int :: 0 <= i && i <= idx ==> resources.HugepageLimits[i] == vres(r).HugepageLimits[old(len(vres(r).HugepageLimits)) + i]
+//@   loop 1 invariant base(vres(r).HugepageLimits) == old(base(vres(r).HugepageLimits)) || fresh(vres(r).HugepageLimits)
+//@   loop 1 invariant sep(base(vres(r).HugepageLimits), base(rres(r).HugepageLimits))
+//@   loop 2 modifies mapkey(r.owners, cid(r)), ledger(r).unified, map(ledger(r).unified), map(rres(r).Unified), map(vres(r).Unified)
+//@   loop 2 invariant wfCreate(r) && cid(r) == old(cid(r)) && vres(r) == old(vres(r)) && rres(r) == old(rres(r)) && reply(r) == old(reply(r)) && view(r) == old(view(r)) && r.request.create == old(r.request.create)
+//@   loop 2 invariant wfRO(r.owners) && (pre(has(r.owners, cid(r))) ==> has(r.owners, cid(r)) && ledger(r) == pre(ledger(r)))
+//@   loop 2 invariant !pre(has(r.owners, cid(r))) && has(r.owners, cid(r)) ==> fresh(ledger(r)) && prefresh(ledger(r)) && zeroedexcept(ledger(r), "unified")
+//@   loop 2 invariant mapStable(ledger(r).unified, old(ledger(r).unified))
+//@   loop 2 invariant (pre(ledger(r).unified) != nil ==> ledger(r).unified == pre(ledger(r).unified)) && (pre(ledger(r).unified) == nil ==> ledger(r).unified == nil || prefresh(ledger(r).unified))
+//@   loop 2 invariant forall k string :: visited(k) ==> has(resources.Unified, k) && !old(has(ledger(r).unified, k)) && has(ledger(r).unified, k) && ledger(r).unified[k] == plugin
+//@                  && has(rres(r).Unified, k) && rres(r).Unified[k] == resources.Unified[k] && has(vres(r).Unified, k) && vres(r).Unified[k] == resources.Unified[k]
+//@   loop 2 invariant forall k string :: !visited(k) ==> has(ledger(r).unified, k) == old(has(ledger(r).unified, k)) && ledger(r).unified[k] == old(ledger(r).unified[k])
+//@                  && has(rres(r).Unified, k) == old(has(rres(r).Unified, k)) && rres(r).Unified[k] == old(rres(r).Unified[k]) && has(vres(r).Unified, k) == old(has(vres(r).Unified, k)) && vres(r).Unified[k] == old(vres(r).Unified[k])
